@@ -1186,6 +1186,8 @@ class Exec:
         kwargs['**'] = self.eval_arg(k.value, env)
         continue
       kwargs[k.arg] = self.eval_arg(k.value, env)
+    for ev in getattr(self, 'iter_events', []):
+      ev.add('call:' + ast.unparse(node.func))
     c = self.ctx.unit.contract
     if c is not None and c.at_calls and env.qualname == c.fn_qualname:
       key = ast.unparse(node.func)
